@@ -654,11 +654,18 @@ func init() {
 	register(&Part{Prop: "C05", Name: "scoping", Quick: 4, Thor: 4, Replay: replay,
 		Desc: "global definition (yes/no) x outer block kind (if, for, function, mutex, try) x outer statement (none, a := 2, let a := 2) x inner block kind x inner statement x a later let in the outer block, probed at the inner, outer and global level: 900 programs against an environment-chain model (blocks open a frame, assignment updates the nearest definition else defines locally, let defines locally, function bodies are parented to the declaration scope)",
 		Rule: "full product; all programs non-trivial",
-		Run:  func(c *Ctx) { c05Scoping(c); c.Sample("a := 1\nif true {\n  let a := 2\n  func fi() {\n    a := 3\n    probe(\"inner\", a)\n  }\n  fi()\n  probe(\"outer\", a)\n}\nprobe(\"global\", a)") }})
+		Run: func(c *Ctx) {
+			c05Scoping(c)
+			c.Sample("a := 1\nif true {\n  let a := 2\n  func fi() {\n    a := 3\n    probe(\"inner\", a)\n  }\n  fi()\n  probe(\"outer\", a)\n}\nprobe(\"global\", a)")
+		}})
 	register(&Part{Prop: "C05", Name: "functions-objects-values", Quick: 1, Thor: 1, Replay: replay,
 		Desc: "parameters x 5 default kinds x 0-3 arguments; closures (counter, captured in list, later update), recursion with locals, lexical-not-dynamic resolution, fresh locals per call, no leak of call locals and parameters, first-class functions; objects (template properties, init arguments, this, independent instances, single / multiple / two-level inheritance with super constructors, methods writing this); value vs reference semantics for every scalar kind and for lists/maps through a second name and through parameters; nested container paths; write-then-read for number and string keys",
 		Rule: "hand-enumerated families with computed expectations; all non-trivial",
-		Run:  func(c *Ctx) { c05Functions(c); c05Objects(c); c.Sample("m := {1: \"a\"}; m[1] := \"b\"; probe(\"x\", m[1])") }})
+		Run: func(c *Ctx) {
+			c05Functions(c)
+			c05Objects(c)
+			c.Sample("m := {1: \"a\"}; m[1] := \"b\"; probe(\"x\", m[1])")
+		}})
 	register(&Part{Prop: "C05", Name: "container-sequences", Quick: 16, Thor: 32, Replay: replay,
 		Desc: "every sequence of <= 3 (thorough 4) operations over 16 operations on two names (new list, new map with a string and a number key, alias, index / key / dot writes incl. negative and out-of-range indices, add, del by index / number key / string key, concat), each wrapped in try so that a failing operation has no effect, followed by 10 probes (len, indices 0, 1, 2, -1 of both names, a[\"k\"], a.k) compared with a Go slice/map model; reads of the argument of add/del after the call are left open",
 		Rule: "odometer over operation sequences; all non-trivial; probes the model leaves open are skipped",
